@@ -197,6 +197,24 @@ func TestC03Threshold(t *testing.T) {
 						flags["junk"] = true
 					}
 				}
+				// the observer stays short of the threshold for its target round, but a threshold of valid partials for the round
+				// AFTER it arrives (from members that are ahead): they must wait in the cache, not become the target round
+				if validDelivered < cfg.T && rapid.IntRange(0, 3).Draw(rt, "laterRound") == 0 {
+					sigT := net.Live.Sign(target, prev)
+					sent := 0
+					for sg := 0; sg < cfg.N && sent < cfg.T; sg++ {
+						if sg == x {
+							continue
+						}
+						salt++
+						pkt, _ := net.Forge(AdvValid, sg, x, target+1, sigT, salt)
+						net.Inject(x, net.Nodes[sg].Addr, pkt, "later-round")
+						sent++
+					}
+					desc = append(desc, fmt.Sprintf("later-round(%d)x%d", target+1, sent))
+					flags["later-round-threshold"] = true
+					net.Settle()
+				}
 				hist = append(hist, fmt.Sprintf("x%d@%d[%s]=%d/%d", x, target, strings.Join(desc, ","), validDelivered, cfg.T))
 				if validDelivered == cfg.T-1 {
 					flags["k=t-1"] = true
